@@ -68,6 +68,7 @@ fn main() {
         "C06" => run_check::<engines::kv::KvCheck>(opts),
         "C07" => run_check::<engines::prefix::PrefixCheck>(opts),
         "C18" => run_check::<engines::addr::AddrCheck>(opts),
+        "C09" => run_check::<engines::bank::BankCheck>(opts),
         _ => {
             eprintln!("unknown property id {}", id);
             2
